@@ -71,13 +71,33 @@ SUMMARY = {
     "C11-4": ("same edit as C10-1 (independent agent, round 4)", "degenerate systems whose optimum has exact zeros with zero multiplier", "caught (SG-2)"),
     "C12-4": ("worker returns at once when `sched_setaffinity` fails (instead of only printing)", "more workers than CPUs the process may run on: the coordinator waits for a worker that has left", "missed at first; MT-10 (the worker leaves only in answer to TERMINATE) added"),
     "C13-4": ("knots-vs-order guard rewritten as `nsplines = size-order-1; if(nsplines < order+1)` (unsigned wrap)", "knot vectors shorter than order+1 in two dimensions at once", "caught (VG-1: guard not in the required relational form)"),
-    "C14-4": ("transfer-matrix multiply rewritten with hoisted pointers; input slab offset loses `*stride2`", "convolved dimension strictly inside a table of >= 3 dimensions", "@@C14-4@@"),
-    "C15-4": ("C wrapper `splinetable_permute` returns 0 early when the index array `is_sorted`", "sorted malformed argument ({0,0,2}, {0,1,3}) through the C interface", "@@C15-4@@"),
+    "C14-4": ("transfer-matrix multiply rewritten with hoisted pointers; input slab offset loses `*stride2`", "convolved dimension strictly inside a table of >= 3 dimensions", "caught (UW-4: the apply statement no longer has the recognised index form)"),
+    "C15-4": ("C wrapper `splinetable_permute` returns 0 early when the index array `is_sorted`", "sorted malformed argument ({0,0,2}, {0,1,3}) through the C interface", "caught (CW-2: an early return of 0 is not an argument rejection)"),
     "C16-4": ("`remove_key` moves the last entry into the hole (`std::swap` + `std::copy`)", ">= 3 keys, removal of one before the second-to-last, order observed", "missed at first; KM-4 (order-preserving key store) added"),
     "C17-4": ("`slicemultiply` returns 0 early when the product is structurally empty, before the shape update", "sparse coefficient array and a grid wholly off the populated slices", "missed at first; GE-4 (shape update on every successful return) added"),
     "C18-4": ("`clear()` returns early when `ndim == 0`", "keys written to a handle that holds no spline, then free: aux storage leaked", "missed at first; TS-6 (release independent of ndim) added"),
     "C19-4": ("`std::reverse(naxes)` dropped from `estimateMemory`", "declared convolution on a table whose coefficient grid is not symmetric under dimension reversal", "missed at first; SM-7 (axis reversal in every reader of the image size) added"),
     "C20-4": ("`this->coefficients=nullptr` after the release removed from `convolve`", "allocation failure at the first allocator request inside convolve: double free through the guard", "missed at first; TS-7 (released member re-pointed before the next raising element) added"),
+    "C01-5": ("scratch arrays of the generic core `basis_tree[ndim+1]`, `decomposedposition[ndim]` made fixed-size `[PHOTOSPLINE_MAXDIM(+1)]`", "a 9-dimensional table (MAXDIM is the gradient's lane budget, not a limit of the format): stack overflow by one element", "missed at first; KB-8 (constant-extent stack arrays vs runtime index ranges) added"),
+    "C02-5": ("evaluator's gradient scratch arrays `Float valbasis[..]` declared `float`", "`get_evaluator<double>()` + gradient compared at double precision", "missed at first under C02 (caught under C03: CL-2); C02 now runs CL-2"),
+    "C03-5": ("`orders_are` folds the size check into the loop (prefix match)", "7-9 dimensional table whose first six orders are {2,2,2,3,2,2} or {2,2,2,5,2,2}, through the evaluator", "caught (DP-8)"),
+    "C04-5": ("up-front range test removed from `searchcenters`, bounds only tested inside the margin branches", "order-0 or clamped left end and a coordinate exactly on the first knot", "caught (SC-1/SC-2/SC-5)"),
+    "C05-5": ("range test rewritten in the upstream form `x <= first || x > last`", "NaN coordinate and a dimension with order >= 4 on a short knot vector", "caught (SC-4)"),
+    "C06-5": ("writer's `naxes`/`fpixel` heap arrays made `long[PHOTOSPLINE_MAXDIM]`", "a 9-dimensional table written to disk or memory", "caught (FS-7; KB-8 since)"),
+    "C07-5": ("readers' cleanup handler narrowed from `catch(...)` to `catch(const std::runtime_error&)`", "a read that fails with std::bad_alloc (huge NAXISn, or injected)", "caught (TS-2)"),
+    "C08-5": ("unchecked `fits_flush_file` added at the end of `write_fits_core`", "I/O failure surfacing while the buffered blocks are flushed", "caught (ED-1)"),
+    "C09-5": ("`bsplinebasis` zero-initialised and skipping points with `x <= knots[col]`", "order-0 dimension with a data abscissa exactly on a knot", "missed at first; GE-3 every-entry-filled added and run under C09"),
+    "C10-5": ("T-spline conversion of the monotonic dimension's penalty replaced by accumulating each stencil from the right (re-based after D42)", "monotonic fit with penalty order 0 and non-zero smoothing", "caught (SG-4)"),
+    "C11-5": ("`0 < alpha < 1` admission test removed from the line search's candidate list", "a coordinate exactly at 0 that wants to decrease: candidate 0, the solver never terminates", "missed at first; LS-1 (candidates strictly inside (0,1)) added"),
+    "C12-5": ("worker's `nH1 = 0` moved into the `if (!trial->H1)` branch", "fewer workers than trial steps and an accepted step outside the first block", "caught (MT-9)"),
+    "C13-5": ("monodim converted to a signed index before the range check `monoIdx >= (int)ndim` (re-based after D42)", "monodim in 0x80000000..0xFFFFFFFE", "caught (VG-1)"),
+    "C14-5": ("`std::sort(rho, rho+n_rho)` replaced by merging each run with its neighbour only", "kernel spanning more than 2-3 knot intervals", "missed at first; UW-7 (whole field sorted) added"),
+    "C15-5": ("scratch buffer of the periods made `std::vector<float>`", "a table read from FITS with PERIODn not representable in single precision", "missed at first; CL-5 gather-type (scratch has the member's element type) added"),
+    "C16-5": ("writer's aux loop uses `fits_update_key` instead of `fits_write_key`", "a key `HIERARCH`, or a long key beginning with HIERARCH, stored after another key it matches by cfitsio's rules", "missed at first; FS-9 (data-named cards are appended) added"),
+    "C17-5": ("`bsplinebasis` zero-initialised, row loop left at the first point beyond the column's support", "unsorted, descending or late-repeated grid abscissae", "missed at first; GE-3 every-entry-filled (perfect nest, no jumps) added"),
+    "C18-5": ("`cleanup.fits=NULL` moved after the checked close in `write_fits`", "a write whose final close fails: the guard closes the released handle again", "missed at first; ED-2 guard-disarmed-before-the-close added, ED writer rules run under C18"),
+    "C19-5": ("`countAuxKeywords(fits)` folded into its use after the KNOTS loop", "file with 20 or more long auxiliary keys", "caught (SM-4)"),
+    "C20-5": ("`remove_key` compacts the entries in place and decrements `naux`", "any later release of the key array, seen by a size-checking allocator", "missed at first; TS-8 (naux changes only with a newly allocated array) added"),
     "C20-2": ("`extents[0] = nullptr` removed from the reader", "allocation failure at the 7th request with a non-zero-filling allocator", "caught"),
 }
 try:
